@@ -1,63 +1,90 @@
-"""C12 hunt on the unmodified tree.
+"""Hunt round 3 for property C12 (only()/exclude()/without_extras()).
 
-Result of the hunt: no violation of C12 inside the quantifier was found outside the
-already known families (areas and case counts are in the final report).  The one thing
-that does go wrong is borderline: a marker that packaging parses, that parse_marker()
-accepts, and on which only()/exclude()/without_extras() raise an exception of the
-library's *specifier* layer (dep_logic.specifiers.base.InvalidSpecifier) instead of
-returning a marker.  It needs `~=` applied to a plain string variable, which PEP 508's
-grammar allows but whose evaluation is undefined (packaging raises UndefinedComparison
-for every environment), so it is a close relative of known family (7).
+Run on the UNMODIFIED tree:
+    cd /tmp/wt/C12i && PYTHONPATH=/tmp/wt/C12i/src /venv/bin/python hunt_C12.py
 
-Run: cd /tmp/wt/C12g && PYTHONPATH=/tmp/wt/C12g/src /venv/bin/python hunt_C12.py
+One new finding, reachable only through the public *constructors* (not through
+parse_marker / & / |, whose results never have a MultiMarker directly above a
+semantically empty member):
+
+  MultiMarker.exclude() silently DROPS a conjunct whose exclusion is empty
+  (`if not marker.is_empty(): new_markers.append(marker)`), instead of making the
+  whole conjunction empty.  For a marker that does not mention the excluded variable
+  at all, exclude()/without_extras() therefore change the meaning from "never" to
+  whatever the remaining conjuncts say.  (The related degenerate MarkerUnion() with no
+  members evaluates False, and its exclude() returns AnyMarker.)
+
+The oracle is direct evaluation of both sides (evaluate() of a MultiMarker is all(),
+of a MarkerUnion any(), of the atoms packaging's semantics) on ordinary environments.
 """
 from __future__ import annotations
 
-from packaging.markers import Marker, UndefinedComparison
+import itertools
 
-from dep_logic.markers import parse_marker
+from packaging.markers import Marker
 
-CASES = [
-    # (marker, call description, callable)
-    (
-        '(os_name ~= "nt" and extra == "a") or (os_name == "posix" and extra == "b")',
-        [
-            ("only('os_name')", lambda m: m.only("os_name")),
-            ("exclude('extra')", lambda m: m.exclude("extra")),
-            ("without_extras()", lambda m: m.without_extras()),
-        ],
-    ),
-    (
-        '(platform_machine ~= "x86_64" and python_version >= "3.8") or (platform_machine != "arm64" and python_version < "3.8")',
-        [
-            ("only('platform_machine')", lambda m: m.only("platform_machine")),
-            ("exclude('python_version')", lambda m: m.exclude("python_version")),
-        ],
-    ),
+from dep_logic.markers import (
+    EmptyMarker,
+    MarkerExpression,
+    MarkerUnion,
+    MultiMarker,
+)
+
+ENVS = [
+    {"os_name": o, "sys_platform": s, "extra": x}
+    for o, s, x in itertools.product(["posix", "nt"], ["linux", "win32"], ["", "a"])
 ]
 
-ENV = {"os_name": "posix", "platform_machine": "x86_64", "python_version": "3.9", "extra": "a"}
+posix = MarkerExpression("os_name", "==", "posix")
+nt = MarkerExpression("os_name", "==", "nt")
+linux = MarkerExpression("sys_platform", "==", "linux")
+
+
+def names(m) -> set[str]:
+    if isinstance(m, (MultiMarker, MarkerUnion)):
+        return set().union(*(names(x) for x in m.markers)) if m.markers else set()
+    return {m.name} if hasattr(m, "name") else set()
+
+
+CASES = [
+    # (description, marker, equivalent PEP 508 text for packaging or None)
+    (
+        "conjunction with a nested contradictory group",
+        MultiMarker(MarkerUnion(MultiMarker(posix, nt)), linux),
+        '(os_name == "posix" and os_name == "nt") and sys_platform == "linux"',
+    ),
+    ("conjunction with an explicit EmptyMarker member", MultiMarker(EmptyMarker(), linux), None),
+    ("conjunction holding the result of MultiMarker.of() on a contradiction",
+     MultiMarker(MultiMarker.of(posix, nt), linux), None),
+    ("MarkerUnion() without members", MarkerUnion(), None),
+]
 
 found = 0
-for text, calls in CASES:
-    print("marker:", text)
-    pk = Marker(text)  # packaging parses it
-    try:
-        print("  packaging evaluate:", pk.evaluate(ENV))
-    except UndefinedComparison as e:
-        print("  packaging evaluate: UndefinedComparison:", e)
-    m = parse_marker(text)  # and so does the library
-    print("  parse_marker ->", repr(str(m)))
-    for label, call in calls:
-        try:
-            result = call(m)
-        except Exception as e:  # noqa: BLE001
+for desc, m, text in CASES:
+    assert "extra" not in names(m) and "platform_machine" not in names(m)
+    for what, r in (
+        ('exclude("extra")', m.exclude("extra")),
+        ("without_extras()", m.without_extras()),
+        ('exclude("platform_machine")', m.exclude("platform_machine")),
+    ):
+        diff = [e for e in ENVS if m.evaluate(e) != r.evaluate(e)]
+        if text is not None:
+            assert all(Marker(text).evaluate(dict(e)) == m.evaluate(e) for e in ENVS)
+        if diff:
             found += 1
-            print(f"  {label}: raises {type(e).__module__}.{type(e).__name__}: {e}")
-            print("     expected: a marker that does not mention the removed variable(s)")
-        else:
-            print(f"  {label}: {str(result)!r}")
+            e = diff[0]
+            print(f"NEW VIOLATION ({desc})")
+            print(f"   input      : {m!r}   (mentions {sorted(names(m))}, not the excluded variable)")
+            print(f"   operation  : .{what}")
+            print(f"   library    : {r!r}")
+            print(f"   on env {e}: input evaluates {m.evaluate(e)}"
+                  + (f" (packaging on the equivalent text: {Marker(text).evaluate(dict(e))})" if text else "")
+                  + f", result evaluates {r.evaluate(e)}")
+            print("   expected   : a marker with the same meaning as the input (EmptyMarker)")
+            # only() with every mentioned name is fine on the same input:
+            o = m.only(*sorted(names(m))) if names(m) else m.only()
+            print(f"   (only{tuple(sorted(names(m)))} gives {o!r})")
 
-print()
-print(f"{found} borderline finding(s) (exception of the wrong layer from only()/exclude());")
-print("no in-quantifier violation of C12 found outside the known families.")
+if not found:
+    print("no violation reproduced (is the tree unmodified?)")
+print(f"{found} violating (input, operation) pairs")
